@@ -8,7 +8,8 @@ EXTENDS Wire, Json
 CONSTANTS Depth,      \* GCSpec: sequences of length <= Depth ...
           FullDepth,  \* ... over all Classes up to length FullDepth,
           WideDepth,  \* ... over Wide up to length WideDepth, over Core beyond
-          Wide, Core
+          Wide, Core,
+          Pauses      \* GFSpec: also enumerate receive time-outs between the chunks
 VARIABLE hist
 gvars == <<vars, hist>>
 
@@ -19,7 +20,7 @@ RECURSIVE Drain(_, _)             \* Deframe iterated until no newline is left
 Drain(b, ls) == IF HasNL(b) THEN Drain(AfterNL(b), Append(ls, BeforeNL(b))) ELSE <<b, ls>>
 
 GRecv(k) ==
-    /\ k >= 1 /\ pos + k <= Len(stream)
+    /\ k >= 1 /\ k <= ReadSize /\ pos + k <= Len(stream)
     /\ LET chunk == SubSeq(stream, pos + 1, pos + k)
            d == Drain(buf \o chunk, lines)
        IN /\ buf' = d[1] /\ lines' = d[2]
@@ -27,8 +28,12 @@ GRecv(k) ==
                                    exp |-> [buf |-> Str(d[1]), lines |-> StrSeq(d[2])]])
     /\ pos' = pos + k
     /\ UNCHANGED <<stream, lvars, svars>>
+GPause ==          \* a receive that times out (at most one between two chunks, also after the last one)
+    /\ Pauses /\ hist # <<>> /\ hist[Len(hist)].act = "recv"
+    /\ hist' = Append(hist, [act |-> "pause", chunk |-> "", exp |-> [buf |-> Str(buf), lines |-> StrSeq(lines)]])
+    /\ UNCHANGED vars
 GFInit == FInit /\ LInit /\ SInit /\ hist = <<>>
-GFSpec == GFInit /\ [][\E k \in 1 .. MaxLen : GRecv(k)]_gvars
+GFSpec == GFInit /\ [][GPause \/ \E k \in 1 .. MaxLen : GRecv(k)]_gvars
 EmitF == (pos = Len(stream)) =>
     PrintT(<<"BEH", ToJson([stream |-> Str(stream), steps |-> hist,
                             reqs |-> [i \in 1 .. Len(lines) |-> LineReq(lines[i])]])>>)
